@@ -7,6 +7,7 @@ from .. import hgen
 from ..hbase import STUBS
 from ..hlib import c01 as L
 from .common import BASE_ASSUMPTIONS, ROOT, Cond, Spec
+from ..runner import innermost as U
 
 
 def build(tier):
@@ -55,9 +56,9 @@ def build(tier):
     S, C = aioftp.Server, aioftp.Client
     return Spec(
         pid="C01", source=src, conds=conds,
-        functions_encoded=[S.stor.__wrapped__.__wrapped__, S.retr.__wrapped__.__wrapped__.__wrapped__, S.appe, S.rest, S.dispatcher, com.AsyncStreamIterator.__anext__, com.ThrottleStreamIO.read,
+        functions_encoded=[U(S.stor), U(S.retr), S.appe, S.rest, S.dispatcher, com.AsyncStreamIterator.__anext__, com.ThrottleStreamIO.read,
                            com.ThrottleStreamIO.write, com.ThrottleStreamIO.iter_by_block, com.StreamIO.read, com.StreamIO.write, pathio.AsyncPathIOContext.__aenter__,
-                           pathio.MemoryPathIO._open.__wrapped__, C.get_stream.__wrapped__, C.get_passive_connection, aioftp.DataConnectionThrottleStreamIO.finish, C.upload_stream, C.download_stream],
+                           U(pathio.MemoryPathIO._open), U(C.get_stream), C.get_passive_connection, aioftp.DataConnectionThrottleStreamIO.finish, C.upload_stream, C.download_stream],
         bounds={
             "server side (real dispatcher, scripted data socket)": f"payload length 0..{nmax}, server block size 1..{bsmax}, restart offset in {offs} (issued by a real REST command), old file absent or of length {olds[1:]}, "
                                                                    f"network segmentation point 0..n, the first {'one' if q else 'two'} short reads of the data socket of symbolic size 1..block; all-distinct byte pattern",
